@@ -27,6 +27,7 @@ func init() {
 		Rule: "E-lin + E-race: 2-6 client goroutines x 4-10 operations each (Add/Remove/WatchList over 3-4 directories, with and without one Close) record {call, return} around every public API call from one monotonic clock while 1-3 mutator goroutines create/write/rename/delete entries inside those directories and a consumer drains at PRNG pace (in a third of the histories it receives nothing until the clients are done, so the reader is parked); a final WatchList after a sentinel barrier is part of every history; " +
 			"GOMAXPROCS in {1,2,4,16}; PRNG delays at the verif yield points. Each history is checked with porcupine against a sequential model (closed flag + set of watched paths; Add=>nil/ErrClosed, Remove=>nil/ErrNonExistentWatch, WatchList=>exactly the set without duplicates, nil iff closed, Close=>nil); any other result has no transition. " +
 			"The same workload runs under the race detector (reports with a frame in the library are violations). A weaker-oracle variant lets mutators delete/rename/recreate the watched directories themselves: only no race/panic/deadlock, result classes, no duplicates and tables==kernel at the final barrier are checked. " +
+			"Plus the replace race (4 Watchers in parallel, hundreds of iterations each: delete or rename away the watched file, create a new one under the name, Add it again while an Add spammer and WatchList pollers contend for the lock and the reader works through the old file's notifications; after a sentinel barrier the file must be listed, backed by exactly one kernel mark and report one Chmod). " +
 			"distinct_nontrivial = distinct histories (by operation/result vector) with >=2 genuinely overlapping operations",
 		Assumptions: []string{"porcupine's verdict Unknown (timeout) is inconclusive", "linearizability is checked for histories in which the watched directories themselves are not deleted (the watch would end asynchronously, which a sequential model cannot place)"},
 		Batches:     func(t string) int { return map[string]int{"quick": 12, "thorough": 48}[t] },
